@@ -117,14 +117,17 @@ func EncVal(v any) any {
 		}
 		sort.Strings(ks)
 		xs := []any{}
+		tag := "obj"
 		for _, k := range ks {
 			ek := EncStr(k).(M)
 			if ek["t"] != "str" {
-				return M{"t": "other", "x": "invalid utf-8 key"}
+				tag = "objbytes" // a key that is not valid UTF-8: Go-side only, never compared with the model
+				xs = append(xs, []any{ek["b"], EncVal(v[k])})
+				continue
 			}
 			xs = append(xs, []any{ek["s"], EncVal(v[k])})
 		}
-		return M{"t": "obj", "o": xs}
+		return M{"t": tag, "o": xs}
 	default:
 		return M{"t": "other", "x": fmt.Sprintf("%T", v)}
 	}
